@@ -116,6 +116,12 @@ enum Kind {
     Expensive,
     /// sudo action group (a FeeChange), only SUDO can build it
     SudoGroup,
+    /// transfer of a second asset (fee paid in the native one): costs in two assets
+    OtherAsset,
+}
+
+fn other_asset() -> astria_core::primitive::v1::asset::Denom {
+    "other".parse().unwrap()
 }
 
 #[derive(Clone, Copy, Debug, PartialEq, Eq, Hash, PartialOrd, Ord)]
@@ -134,6 +140,8 @@ enum Ev {
     /// reported as included at the next maintenance)
     IncNonce(Acct),
     SetBalance(Acct, u128),
+    /// Alice's balance of the second asset
+    SetOther(u128),
     RaiseTransferFee,
     Maintain,
     AdvancePastTtl,
@@ -143,6 +151,8 @@ enum Ev {
 struct ChainView {
     nonce: BTreeMap<Acct, u32>,
     balance: BTreeMap<Acct, u128>,
+    /// Alice's balance of the second asset
+    other: u128,
     fee_raised: bool,
 }
 
@@ -151,8 +161,17 @@ impl ChainView {
         Self {
             nonce: [(Acct::Alice, 0), (Acct::Sudo, 0)].into_iter().collect(),
             balance: [(Acct::Alice, HIGH), (Acct::Sudo, HIGH)].into_iter().collect(),
+            other: HIGH,
             fee_raised: false,
         }
+    }
+
+    fn balances_of(&self, a: Acct) -> HashMap<IbcPrefixed, u128> {
+        let mut m: HashMap<IbcPrefixed, u128> = [(nria().to_ibc_prefixed(), self.balance[&a])].into_iter().collect();
+        if a == Acct::Alice {
+            m.insert(other_asset().to_ibc_prefixed(), self.other);
+        }
+        m
     }
 }
 
@@ -185,6 +204,13 @@ impl Pool {
             }
         }
         for nonce in 0..2u32 {
+            specs.push(TxSpec {
+                acct: Acct::Alice,
+                nonce,
+                kind: Kind::OtherAsset,
+            });
+        }
+        for nonce in 0..2u32 {
             for kind in [Kind::Cheap, Kind::SudoGroup] {
                 specs.push(TxSpec {
                     acct: Acct::Sudo,
@@ -206,6 +232,12 @@ impl Pool {
                     to: addr(&CAROL),
                     amount: EXPENSIVE + u128::from(s.nonce),
                     asset: nria().into(),
+                    fee_asset: nria().into(),
+                }),
+                Kind::OtherAsset => Action::Transfer(Transfer {
+                    to: addr(&CAROL),
+                    amount: EXPENSIVE + u128::from(s.nonce),
+                    asset: other_asset(),
                     fee_asset: nria().into(),
                 }),
                 Kind::SudoGroup => Action::FeeChange(FeeChange::BridgeLock(FeeComponents::new(5 + u128::from(s.nonce), 1))),
@@ -241,6 +273,7 @@ impl Pool {
         for (a, b) in &view.balance {
             s.put_account_balance(&key_of(*a).address_bytes(), &nria(), *b).unwrap();
         }
+        s.put_account_balance(&key_of(Acct::Alice).address_bytes(), &other_asset(), view.other).unwrap();
         if view.fee_raised {
             s.put_fees(FeeComponents::<Transfer>::new(500_000, 0)).unwrap();
         }
@@ -314,8 +347,7 @@ impl MempoolModel {
                             continue;
                         }
                         let nonce = view.nonce[&spec.acct];
-                        let balances: HashMap<IbcPrefixed, u128> =
-                            [(nria().to_ibc_prefixed(), view.balance[&spec.acct])].into_iter().collect();
+                        let balances: HashMap<IbcPrefixed, u128> = view.balances_of(spec.acct);
                         let costs = self.pool.costs[usize::from(view.fee_raised)][*i].clone();
                         let r = mempool.insert(tx.clone(), nonce, &balances, costs).await;
                         shown_nonce.insert(spec.acct, nonce);
@@ -347,6 +379,10 @@ impl MempoolModel {
                     }
                     Ev::SetBalance(a, b) => {
                         chain.balance.insert(*a, *b);
+                        in_sync = false;
+                    }
+                    Ev::SetOther(b) => {
+                        chain.other = *b;
                         in_sync = false;
                     }
                     Ev::RaiseTransferFee => {
@@ -556,16 +592,22 @@ impl MempoolModel {
                                 break;
                             }
                         }
-                        let mut total: u128 = 0;
+                        let mut totals: BTreeMap<IbcPrefixed, u128> = BTreeMap::new();
                         for (_, i) in list {
                             let costs = &self.pool.costs[usize::from(chain.fee_raised)][*i];
-                            total = total.saturating_add(costs.values().copied().sum::<u128>());
+                            for (asset, c) in costs {
+                                let t = totals.entry(*asset).or_insert(0);
+                                *t = t.saturating_add(*c);
+                            }
                         }
-                        if total > chain.balance[&a] {
+                        let have = chain.balances_of(a);
+                        if let Some((asset, total)) =
+                            totals.iter().find(|(asset, t)| **t > have.get(*asset).copied().unwrap_or(0))
+                        {
                             violation = viol(
                                 "maintenance",
                                 "pending not affordable from the shown balance",
-                                format!("account {a:?} balance {} but pending costs {total}; {obs:?}", chain.balance[&a]),
+                                format!("account {a:?} balances {have:?} but pending costs {total} of {asset}; {obs:?}"),
                             );
                             break;
                         }
@@ -609,6 +651,7 @@ impl Model for MempoolModel {
                 Ev::Insert(_, false) => st.obs.chain != st.obs.last_maintained,
                 Ev::IncNonce(a) => st.obs.chain.nonce[a] < 2,
                 Ev::SetBalance(a, b) => st.obs.chain.balance[a] != *b,
+                Ev::SetOther(b) => st.obs.chain.other != *b,
                 Ev::RaiseTransferFee => !st.obs.chain.fee_raised,
                 Ev::AdvancePastTtl => !st.obs.expired_clock,
                 _ => true,
@@ -669,6 +712,8 @@ fn alphabet(pool: &Pool, thorough: bool) -> Vec<Ev> {
     v.push(Ev::SetBalance(Acct::Alice, EXPENSIVE + 100));
     v.push(Ev::SetBalance(Acct::Alice, 0));
     v.push(Ev::SetBalance(Acct::Alice, HIGH));
+    v.push(Ev::SetOther(0));
+    v.push(Ev::SetOther(HIGH));
     for i in 0..pool.txs.len() {
         v.push(Ev::RemoveInvalid(i));
     }
@@ -693,6 +738,7 @@ fn ev_json(m: &MempoolModel, ev: &Ev) -> J {
         Ev::RemoveInvalid(i) => format!("remove_invalid {}", t(i)),
         Ev::IncNonce(a) => format!("inc_nonce {a:?}"),
         Ev::SetBalance(a, b) => format!("set_balance {a:?} {b}"),
+        Ev::SetOther(b) => format!("set_other_asset_balance Alice {b}"),
         Ev::RaiseTransferFee => "raise_transfer_fee".into(),
         Ev::Maintain => "maintain".into(),
         Ev::AdvancePastTtl => "advance_past_ttl".into(),
@@ -736,9 +782,9 @@ fn verif_c13() {
     }
     let depth = if thorough { 6 } else { 4 };
     rep.rule(&format!(
-        "BFS over the real Mempool: every sequence of <= {depth} events from {{insert(10 transactions of 2 accounts, \
-         nonces 0..2, cheap / expensive / sudo-group; current{} chain view), remove_tx_invalid(each), chain nonce +1, \
-         balance to {{0, one expensive tx, high}}, transfer fee raised (recost), run_maintenance, clock past TTL}} x \
+        "BFS over the real Mempool: every sequence of <= {depth} events from {{insert(12 transactions of 2 accounts, \
+         nonces 0..2, cheap / expensive / second-asset / sudo-group; current{} chain view), remove_tx_invalid(each), chain nonce +1, \
+         balance to {{0, one expensive tx, high}}, second-asset balance to {{0, high}}, transfer fee raised (recost), run_maintenance, clock past TTL}} x \
          parked_max in {{1, 2, 100}}; each state is the history replayed on a fresh mempool under a paused clock; oracle \
          on the inner containers and the public API: one place only, accepted => status known, consecutive pending nonces, \
          builder order, parked limit, and after maintenance: no used nonce, pending starts at the chain nonce and is \
